@@ -32,6 +32,10 @@ func (m *monoExec) Exec(cmd string, a []string) string {
 			m.img = &monogfx.MonoImg{}
 			img = m.img
 			img.NewImage(atoi(a[0]), atoi(a[1]))
+		case "mono.frombytes":
+			// CreateFromBytes on the object in use: the caller's slice becomes the buffer when it is long enough
+			// (it may be longer than ceil(w/8)*h); the error for a short slice is the documented behaviour, not a failure
+			_ = img.CreateFromBytes(atoi(a[0]), atoi(a[1]), append([]byte{}, unhx(a[2])...))
 		case "mono.bbox":
 			img.SetBoundingBox(atoi(a[0]), atoi(a[1]), atoi(a[2]), atoi(a[3]))
 		case "mono.inv":
@@ -91,9 +95,18 @@ type monoSess struct {
 	r    *Rng
 }
 
-// coordinate in a window well beyond the canvas on every side, biased to edges
+// values at the edge of the 32-bit range: coordinates may be this large (the work of an operation depends on its extents
+// only, C16.work_bound); all arithmetic on them stays far inside int64 (C16.int64_safe)
+func hugeCoord(r *Rng) int {
+	return r.Pick(-2147483647, -2147483646, -2147483640, 2147483647, 2147483646, 2147483639, -1073741824, 1073741823)
+}
+
+// coordinate in a window well beyond the canvas on every side, biased to edges; now and then at the edge of int32
 func (s *monoSess) coord(size int) int {
 	r := s.r
+	if r.Chance(3) {
+		return hugeCoord(r)
+	}
 	switch r.Intn(10) {
 	case 0:
 		return r.Pick(-1, 0, 1, size-1, size, size+1)
@@ -105,8 +118,13 @@ func (s *monoSess) coord(size int) int {
 		return r.Range(-4, size+4)
 	}
 }
+// extents: huge only on the negative side (a huge positive extent is a loop of that many iterations: outside the
+// no-hang domain, see C16.work_bound)
 func (s *monoSess) ext(size int) int {
 	r := s.r
+	if r.Chance(2) {
+		return r.Pick(-2147483647, -2147483640, -1073741824)
+	}
 	switch r.Intn(8) {
 	case 0:
 		return r.Pick(-5, -1, 0, 1)
@@ -122,10 +140,37 @@ func newMonoSess(r *Rng, w, h int) *monoSess {
 	return &monoSess{w: w, h: h, r: r}
 }
 
+// replace the buffer through CreateFromBytes: slice shorter than, exactly, or longer than ceil(w/8)*h
+func (s *monoSess) reload() {
+	r := s.r
+	w, h := s.w, s.h
+	if r.Chance(50) {
+		w, h = r.Range(0, 64), r.Range(0, 64)
+	}
+	need := (w + 7) / 8 * h
+	l := need
+	switch r.Intn(4) {
+	case 0:
+		l = r.Range(0, need)
+	case 1, 2:
+		l = need + r.Range(1, 40)
+	}
+	s.w, s.h = w, h
+	emit("mono.frombytes", w, h, pixBits(r, l))
+}
+
 func (s *monoSess) randomGeomOp() {
 	r := s.r
 	if r.Chance(30) {
 		emit("mono.inv", r.Bool())
+		return
+	}
+	if r.Chance(12) {
+		s.reload()
+		return
+	}
+	if r.Chance(4) { // bounding box at the edge of int32
+		emit("mono.bbox", hugeCoord(r), s.coord(s.h), r.Pick(hugeCoord(r), s.w), r.Pick(hugeCoord(r), s.h))
 		return
 	}
 	switch r.Intn(5) {
